@@ -16,7 +16,7 @@ func init() {
 		Level: "Structural necessary conditions of 'aggregates served from stored statistics equal aggregates over the rows': the engine-side eligibility gate (matchPreAgg) is exactly the conjunction of its seven conditions and the planner-side twin is the same minus the exact-hint and cursor-context conjuncts; every cursor that decides to use statistics takes the decision from that gate; " +
 			"chunk statistics are read only on the true branch of the full-containment test, the other branch reads data, and the containment test is tr.Min<=min && max<=tr.Max; the data fall-back skips or stops at a segment only under a condition that implies the segment does not overlap the (inclusive) range; a timestamp taken from range metadata instead of the time column is the very bound that was compared with the query range; " +
 			"statistics are written only by the column builder / the compaction merge, and the accumulator shared between columns is reset before it is merged into. " +
-			"NOT decided: numerical equality of the two evaluation paths, cross-generation overwrites, memtable/file merging.",
+			"a missing field drops a series' memtable statistics only when it is the query's only call (four siblings agree), and a pooled statistics record that is kept across reads is a copy; NOT decided: numerical equality of the two evaluation paths, cross-generation overwrites, memtable/file merging.",
 		Assumptions: commonAssumptions,
 		Technique:   "static analysis: predicate-shape equivalence by truth table, guard dominance and else-branch checks on go/cfg, interval-predicate lattice for loop exits, who-writes tables, must-precede of accumulator reset",
 		Rules:       "C09.R1 R2 R3 R4 R5 R6 R7 R8",
@@ -406,6 +406,19 @@ func init() {
 
 func c09round2(c *an.Ctx) {
 	const E = "engine"
+	// the interval predicates every time-range decision above rests on (inclusive ranges)
+	{
+		r := c.Rule("C09.R3", "K-PREDSHAPE", "interval predicates: TimeRange.Overlaps/Contains and SegmentRange.contains are the inclusive-range tests")
+		if f := fn(r, "lib/util:TimeRange.Overlaps"); f != nil {
+			f.PredShape(r, 0, "!`p1<recv.Min` & !`recv.Max<p0`", "Overlaps(min,max) ⇔ t.Min ≤ max ∧ min ≤ t.Max")
+		}
+		if f := fn(r, "lib/util:TimeRange.Contains"); f != nil {
+			f.PredShape(r, 0, "!`p0<recv.Min` & !`recv.Max<p1`", "Contains(min,max) ⇔ t.Min ≤ min ∧ max ≤ t.Max")
+		}
+		if f := fn(r, "engine/immutable:SegmentRange.contains"); f != nil {
+			f.PredShape(r, 0, "!`p0<recv[0]` & !`recv[1]<p0`", "contains(tm) ⇔ sr[0] ≤ tm ≤ sr[1]")
+		}
+	}
 	// R7: statistics of the memtable rows.  With several calls in one query a series whose
 	// unflushed rows lack ONE of the fields must still contribute its other fields: the
 	// iterator is reset (memtable contribution dropped) only when that field is the only call.
